@@ -17,7 +17,7 @@ const (
 
 func init() {
 	Registry["C11"] = Spec{
-		Pkgs: map[string][]string{"v2": {"resolve"}},
+		Pkgs: map[string][]string{"v2": {"resolve", "plan"}},
 		Run:  runC11,
 		Thorough: func(r *fw.Run) {
 			workspaceWhoMayCall(r, []wsCallRule{
@@ -29,6 +29,8 @@ func init() {
 			"both keys derive from all their documented components; sharing is dominated by the query-only eligibility tests; every wait on a shared record can also leave through the participant's own context; " +
 			"and (context provenance) whether a follower can return the leader's cancellation verbatim. It does not decide byte equality of what participants receive.",
 		Mutants: []Mutant{
+			{Name: "a fetch is a mutation only below a root type called Mutation (seeded change C11-13)", File: "v2/pkg/engine/plan/path_builder_visitor.go", Rule: "C11-R11", Key: "pathBuilderVisitor.resolveRootFieldOperationType/Mutation-from-schema-root",
+				Old: "\tif typeName == c.definition.Index.MutationTypeName.String() {\n", New: "\tif typeName == string(ast.DefaultMutationTypeName) {\n"},
 			{Name: "subgraph leader no longer records whether its own context had ended (reverts part of the F54 fix)", File: "v2/pkg/engine/resolve/loader.go", Rule: "C11-R10", Key: "subgraph/Loader.loadByContext/leader-records-its-context-state",
 				Old: "\t\titem.leaderGone = ctx.Err() != nil\n", New: ""},
 			{Name: "inbound follower returns the shared error without asking whether the leader was gone (reverts part of the F54 fix)", File: "v2/pkg/engine/resolve/inbound_request_singleflight.go", Rule: "C11-R10", Key: "inbound/InboundRequestSingleFlight.GetOrCreate/follower-returns-shared-error-only-after-testing-the-record",
@@ -71,6 +73,7 @@ func init() {
 
 func runC11(r *fw.Run) {
 	defer c11LeaderWriteErrorIsNotShared(r)
+	defer c11OperationTypeFromSchemaRoots(r)
 	defer c11SharedErrorKeepsItsChain(r)
 	defer c11LeaderContextErrorsRecognised(r)
 	p := r.Prog
@@ -1295,4 +1298,98 @@ func c11LeaderContextErrorsRecognised(r *fw.Run) {
 			r.Expect("C11-R10", "returns of the shared error in "+rn, n, 1)
 		}
 	}
+}
+
+// c11OperationTypeFromSchemaRoots (R11): only queries are de-duplicated; whether a fetch is a query is recorded by the
+// planner in FetchInfo.OperationType from the type the fetch's root fields belong to. A schema may call its roots anything
+// (schema { mutation: Writes }), so a function of the planner that classifies a type name as mutation / subscription
+// returns those operation types only under an equality of the type name with the schema's own root type name
+// (ast.Index.MutationTypeName / SubscriptionTypeName); comparing with the default names classifies the fields of a renamed
+// mutation root as queries, and two identical mutations in flight are executed once.
+func c11OperationTypeFromSchemaRoots(r *fw.Run) {
+	p := r.Prog
+	r.Rule("C11-R11", "the planner classifies a root type as mutation / subscription only under an equality with the schema's own root type name (ast.Index.<Op>TypeName), never with a default name")
+	n := 0
+	for _, fi := range p.Funcs("plan") {
+		sig := fi.Obj.Type().(*types.Signature)
+		if sig.Results().Len() != 1 || !fw.TypeIs(sig.Results().At(0).Type(), "ast", "OperationType") || sig.Params().Len() != 1 || !isNameType(sig.Params().At(0).Type()) {
+			continue
+		}
+		info := fi.Info()
+		param := sig.Params().At(0)
+		mentionsIndex := func(e ast.Expr, op string) bool {
+			found := false
+			ast.Inspect(e, func(m ast.Node) bool {
+				if sel, ok := m.(*ast.SelectorExpr); ok && fw.IsFieldSel(info, sel, "ast", "Index", op+"TypeName") {
+					found = true
+				}
+				return true
+			})
+			return found
+		}
+		mentionsParam := func(e ast.Expr) bool {
+			found := false
+			ast.Inspect(e, func(m ast.Node) bool {
+				if id, ok := m.(*ast.Ident); ok && info.Uses[id] == param {
+					found = true
+				}
+				return true
+			})
+			return found
+		}
+		in := fw.NewInterp(fi)
+		in.H = fw.Hooks{
+			Cond: func(e ast.Expr, branch bool, st *fw.State) {
+				op, leaves := fw.NNF(info, e, branch)
+				if op != "atom" && op != "and" {
+					return
+				}
+				for _, a := range leaves {
+					for _, o := range []string{"Mutation", "Subscription"} {
+						if a.Kind == "Eq" && ((mentionsParam(a.X) && mentionsIndex(a.Y, o)) || (mentionsParam(a.Y) && mentionsIndex(a.X, o))) {
+							st.Set("is-root:" + o)
+						}
+						if a.Kind == "True" {
+							// bytes.Equal(typeName, index.MutationTypeName)
+							if c, isCall := ast.Unparen(a.X).(*ast.CallExpr); isCall && len(c.Args) == 2 {
+								if (mentionsParam(c.Args[0]) && mentionsIndex(c.Args[1], o)) || (mentionsParam(c.Args[1]) && mentionsIndex(c.Args[0], o)) {
+									st.Set("is-root:" + o)
+								}
+							}
+						}
+					}
+				}
+			},
+			Case: func(tag ast.Expr, vals []ast.Expr, match bool, st *fw.State) {
+				if !match || !mentionsParam(tag) {
+					return
+				}
+				for _, o := range []string{"Mutation", "Subscription"} {
+					all := len(vals) > 0
+					for _, v := range vals {
+						if !mentionsIndex(v, o) {
+							all = false
+						}
+					}
+					if all {
+						st.Set("is-root:" + o)
+					}
+				}
+			},
+			Exit: func(ret *ast.ReturnStmt, lit *ast.FuncLit, st *fw.State) {
+				if lit != nil || ret == nil || !in.Final() || len(ret.Results) != 1 {
+					return
+				}
+				for _, o := range []string{"Mutation", "Subscription"} {
+					if c := fw.ConstObj(info, ret.Results[0]); c != nil && c.Name() == "OperationType"+o {
+						n++
+						r.Check(st.Must("is-root:"+o), "C11-R11", fi.Name()+"/"+o+"-from-schema-root", p.Pos(ret.Pos()), fi.Name()+" returns OperationType"+o+" only where the type name equals the schema's "+o+" root type name",
+							"OperationType"+o+" is decided without comparing the type name with ast.Index."+o+"TypeName: with a renamed root type (schema { "+strings.ToLower(o)+": Writes }) the fetch is classified as a query, and the single flight shares one execution between two identical "+strings.ToLower(o)+"s")
+					}
+				}
+			},
+		}
+		in.Run(nil)
+	}
+	r.Expect("C11-R11", "classifications of a root type as mutation / subscription in the planner", n, 2)
 }
